@@ -33,6 +33,14 @@ def ref_step8(x):
     return x
 
 
+def _call(f, x):
+    """The real function on a valid message: an exception is a wrong answer, not a harness failure."""
+    try:
+        return f(x)
+    except Exception as e:
+        return f"<raised {type(e).__name__}>"
+
+
 def ref_crc(data):
     c = 0
     for d in data:
@@ -161,7 +169,7 @@ def path(c, job):
                 except Exception:
                     pass
                 for msg in ([], [0], [1, 2, 3], list(range(20))):
-                    if m.crc7(msg) != ref_crc(msg):
+                    if _call(m.crc7, msg) != ref_crc(msg):
                         ok, detail = False, (bad, msg)
             c.reach("fault")
             c.prove("C20.F call-after-a-failed-call", ok, info=dict(detail=repr(detail)))
@@ -172,15 +180,15 @@ def path(c, job):
             bad = []
             for T in (bytes, bytearray, tuple):
                 for a in range(256):
-                    if m.crc7(T([a])) != ref_crc([a]):
+                    if _call(m.crc7, T([a])) != ref_crc([a]):
                         bad.append((T.__name__, [a]))
                     for b in ((0, 1, 0x30, 0x91, 0xFF, a) if job.get("light") else range(256)):
-                        if m.crc7(T([a, b])) != ref_crc([a, b]):
+                        if _call(m.crc7, T([a, b])) != ref_crc([a, b]):
                             bad.append((T.__name__, [a, b]))
-                if m.crc7(T()) != 0:
+                if _call(m.crc7, T()) != 0 or _call(m.crc7, list(T())) != 0:
                     bad.append((T.__name__, []))
                 for msg in ([0x30] * 5, [0] * 9 + [7], list(range(40)), [0x30, 0x30, 1, 2, 3, 0x30]):
-                    if m.crc7(T(msg)) != ref_crc(msg):
+                    if _call(m.crc7, T(msg)) != ref_crc(msg):
                         bad.append((T.__name__, msg))
             c.reach("types")
             c.prove("C20.Y sequence-types-agree-with-bit-serial", not bad, info=dict(first_bad=bad[:3], n=len(bad)))
